@@ -39,14 +39,16 @@ def validate(ctx, items):
         o = r["obs"]
         if o["snerr"] > 0:
             rejected += 1
-            fails.append((it, "subset_program_rejected", dict(err0=o.get("serr0"))))
+            if not str(it["id"]).startswith("fix"):     # a fixture may use syntax of a plugin (===): not in the subset
+                fails.append((it, "subset_program_rejected", dict(err0=o.get("serr0"))))
             continue
         if any(x.get("panic") for x in o["outs"]):
             fails.append((it, "total", dict(panic=[x["panic"] for x in o["outs"] if x.get("panic")][0])))
             continue
         it = dict(it, outs={x["cfg"]: x for x in o["outs"]}, stoks=o["stoks"])
         keep.append(it)
-        progs.append(dict(id=it["id"] + "|src", code=it["text"], prelude=PRELUDE))
+        # the text holds the source BYTES (as Latin-1 characters); an engine reads them as UTF-8
+        progs.append(dict(id=it["id"] + "|src", code=it["text"].encode("latin-1").decode("utf-8", "replace"), prelude=PRELUDE))
         seen = {}
         for c, x in it["outs"].items():
             code = bytes(x["code"]).decode("utf-8", "replace")     # what an engine reads from a .js file
@@ -71,6 +73,7 @@ def validate(ctx, items):
                          codes={c: it["outs"][c]["code"] for c in MODEL},
                          mouts={c: it["mouts"][i] for i, c in enumerate(MODEL)} if it.get("mouts") else {}))
         byid[it["id"]] = it
+    ctx.cov["rejected_by_xjs"] = ctx.cov.get("rejected_by_xjs", 0) + rejected
     ctx.cov["source_not_javascript"] = ctx.cov.get("source_not_javascript", 0) + notjs
     ctx.cov["source_timeouts"] = ctx.cov.get("source_timeouts", 0) + timeouts
     if timeouts:
@@ -113,6 +116,9 @@ def run(ctx):
             continue
         seen.add(text)
         items.append(dict(id="m%d" % n, text=text, mouts=e["mouts"] or None))
+    from props import c06
+    for f in c06.fixture_items():       # the repository's fixtures print through console.log
+        items.append(dict(id=f["id"], text=f["text"], mouts=None))
     ctx.cov["samples"] = [dict(text=items[k]["text"]) for k in (11, len(items) // 2, len(items) - 1)]
     fails = validate(ctx, items)
     ctx.cov["distinct_nontrivial"] = ctx.cov.get("programs", 0)
